@@ -187,13 +187,14 @@ EXPLANATION = (
     'special_email_iff, dotless_email_iff, address_verdict, unparsable_url_reported; content_type_form; conflict_marker_spec; clean_header_silent '
     '(+ kernel-evaluated clean header in the three kinds); pot_exemptions, po_boilerplate_due, pot_comments_subset; mo_exemptions; hdr_nocrash, '
     'hdr_nocrash_charset (with C20 check_total), unusual_names_total; unusual_characters_spec, comment_search_spec, comment_word_pattern, '
-    'comment_copyright_pattern (declarative readings of find_unusual_characters and of the check_comments patterns); source_pins, registry_case_distinct, tag_sites_pin, emitted_names_registered. '
+    'comment_copyright_pattern (declarative readings of find_unusual_characters and of the check_comments patterns); value_reports_once '
+    '(sorted(set(values)): no per-value or field-name diagnostic twice); source_pins, registry_case_distinct, tag_sites_pin, emitted_names_registered. '
     'Reused, not re-modelled: check_dates (C18 Date.checkDates, NoCrash, template_placeholder_exempt), the charset fragment (C20 '
     'Charset.checkCharset, check_classification, check_total); Language / Plural-Forms / X-Poedit-* rules are C19 / C07. '
     'OUTSTANDING (test-level only): str.splitlines, and that CPython re decides what the scanners decide - tied by the hdr-* and '
     'check-comments streams (the rule set states the comment and unusual-character clauses with the model scanners, whose declarative '
-    'readings are separate theorems); multiplicity of reports (sorted(set())) is compared by the correspondence (ordered lists) and the falsifier '
-    '(multisets), not proved. FINDING (fixed in /repo, re-found by this check on the pre-fix tree): Report-Msgid-Bugs-To: http://[foo crashed '
+    'readings are separate theorems); emission order and the multiplicity of tags that may repeat (stray lines, charset tags) are compared by the correspondence '
+    '(ordered lists) and the falsifier (multisets), not proved. FINDING (fixed in /repo, re-found by this check on the pre-fix tree): Report-Msgid-Bugs-To: http://[foo crashed '
     'with ValueError (2f85d76).')
 
 if __name__ == '__main__':
